@@ -381,6 +381,12 @@ func (c *pathParser) addSeg(segString []byte) error {
 				c.points[i+5] += c.currentX
 				c.points[i+6] += c.currentY
 			}
+			if c.points[i] == 0 || c.points[i+1] == 0 {
+				// a zero radius: the arc is a straight line to the end point
+				c.lineTo(c.points[i+5], c.points[i+6])
+				c.currentX, c.currentY = c.points[i+5], c.points[i+6]
+				continue
+			}
 			c.addArcFromA(c.points[i:])
 		}
 	default:
